@@ -114,10 +114,10 @@ theorem C12_assoc_unknown_notfound (c : Case) (hwf : wf c = true) (hop : c.op = 
     class is). -/
 theorem C12_result_invariants (c : Case) (_hwf : wf c = true) (hk : known c = [])
     (he : (model c).exc = none) : (model c).invariants = true := by
-  have hcm := (known_nil c hk).2
   unfold model at he ⊢
   cases hop : c.op with
   | evolve =>
+    have hcm := (known_nil c hk).2 hop
     simp only [hop] at he ⊢
     split
     · rename_i hm; simp [hm] at he
@@ -129,8 +129,58 @@ theorem C12_result_invariants (c : Case) (_hwf : wf c = true) (hk : known c = []
   | assoc =>
     simp only [hop] at he ⊢
     split
-    · simp [hcm]
+    · rfl
     · rename_i hm; simp [hm] at he
+
+/-- **C12_evolve_identity**: in the result of a successful `evolve` of a fully constructed instance, every init
+    field without converter holds the very object that was given for it — the change if the field is named
+    (also when that object merely equals the current one), else the object the original holds. -/
+theorem C12_evolve_identity (c : Case) (hwf : wf c = true) (hk : known c = []) (hop : c.op = .evolve)
+    (hall : c.changes.all (fun kv => (c.base.run.attrs.filter (·.init)).any (·.alias == kv.1)) = true)
+    (a : Attr) (ha : a ∈ c.base.run.attrs) (hi : a.init = true) (hc : a.conv = none) :
+    (a.name, identDemand (c.changes.any (·.1 == a.alias))) ∈ (model c).ident := by
+  have p := wfParts c hwf
+  obtain ⟨_, _, v⟩ := C12_evolve_values c hwf hk hop hall
+  have hok : callOk (params (evolveCase c).run.attrs) (evolveCase c).call = true := by
+    rw [← hall]; exact callOk_evolve c p
+  obtain ⟨e, _⟩ := C01.C01_values (evolveCase c) (wf_evolveCase c p) (known_nil c hk).1 hok
+  have hm := evolveMissing_false c p
+  have hid : (model c).ident = evolveIdent c.base.run.attrs c.changes (model c).values := by
+    unfold model
+    rw [hop]
+    simp only [hm, Bool.false_eq_true, if_false, e]
+  rw [hid, v]
+  unfold evolveIdent
+  rw [zip_map_filterMap]
+  refine List.mem_filterMap.2 ⟨a, ha, ?_⟩
+  obtain ⟨w, hw⟩ := Option.isSome_iff_exists.1 (lookup_evolve_kw c p a ha hi).2
+  simp only [hi, if_true, hc, Option.isSome_none, hw, Option.map_some, identOf_some]
+
+/-- **C12_assoc_identity**: the result of `assoc` with field names only holds, in every named field, the very
+    object given (also when it equals the old one), and shares every other field's object with the original
+    (a shallow copy). -/
+theorem C12_assoc_identity (c : Case) (hwf : wf c = true) (hop : c.op = .assoc)
+    (hall : c.changes.all (fun kv => c.base.run.attrs.any (·.name == kv.1)) = true)
+    (kv : String × Option Val) (hkv : kv ∈ c.cur) :
+    (kv.1, identDemand (c.changes.any (·.1 == kv.1))) ∈ (model c).ident := by
+  have p := wfParts c hwf
+  have hset : kv.2.isSome = true := by
+    rcases p.full with h | h
+    · rw [hop] at h; cases h
+    · exact h kv hkv
+  obtain ⟨w, hw⟩ := Option.isSome_iff_exists.1 hset
+  have : c.changes.all (fun kv => c.cur.any (·.1 == kv.1)) = true := by
+    rw [← hall]; congr 1; funext kv; exact any_cur_eq c p kv.1
+  have hid : (model c).ident = assocIdent c.cur c.changes := by
+    unfold model
+    rw [hop]
+    simp only [this, if_true]
+  rw [hid]
+  unfold assocIdent
+  refine List.mem_map.2 ⟨kv, hkv, ?_⟩
+  cases hl : lookup kv.1 c.changes with
+  | some u => simp only [identOf_some]
+  | none => simp only [hw, identOf_some]
 
 /-- **C12_model_meets_spec**: the model satisfies the declarative specification on every well-formed case
     outside the listed known findings (K2, K3). -/
@@ -145,7 +195,18 @@ theorem C12_model_meets_spec (c : Case) (hwf : wf c = true) (hk : known c = []) 
     | true =>
       obtain ⟨e, f, v⟩ := C12_evolve_values c hwf hk hop hall
       have hi := C12_result_invariants c hwf hk e
-      simp only [e, f, v, hi, beq_self_eq_true, Bool.and_true, Bool.true_and, if_true]
+      have hid : (c.base.run.attrs.filter (·.init)).all (fun a => a.conv.isSome ||
+          (model c).ident.contains (a.name, identDemand (c.changes.any (·.1 == a.alias)))) = true := by
+        rw [List.all_eq_true]
+        intro a ha
+        obtain ⟨ha1, ha2⟩ := List.mem_filter.1 ha
+        cases hc : a.conv with
+        | some _ => rfl
+        | none =>
+          simp only [Option.isSome_none, Bool.false_or, List.contains_iff_mem]
+          exact C12_evolve_identity c hwf hk hop hall a ha1 ha2 hc
+      simp only [e, f, hi, hid, beq_self_eq_true, Bool.and_true, Bool.true_and, if_true]
+      rw [v]
       exact beq_iff_eq.2 rfl
     | false =>
       have := C12_unknown_typeerror c hwf hk hop hall
@@ -156,7 +217,14 @@ theorem C12_model_meets_spec (c : Case) (hwf : wf c = true) (hk : known c = []) 
     | true =>
       obtain ⟨e, f, v⟩ := C12_assoc_spec c hwf hop hall
       have hi := C12_result_invariants c hwf hk e
-      simp only [e, f, v, hi, beq_self_eq_true, Bool.and_true, Bool.true_and, if_true]
+      have hid : c.cur.all (fun kv =>
+          (model c).ident.contains (kv.1, identDemand (c.changes.any (·.1 == kv.1)))) = true := by
+        rw [List.all_eq_true]
+        intro kv hkv
+        simp only [List.contains_iff_mem]
+        exact C12_assoc_identity c hwf hop hall kv hkv
+      simp only [e, f, hi, hid, beq_self_eq_true, Bool.and_true, Bool.true_and, if_true]
+      rw [v]
       exact beq_iff_eq.2 rfl
     | false =>
       have := C12_assoc_unknown_notfound c hwf hop hall
@@ -186,15 +254,15 @@ def k2Witness : Case :=
               call := { pos := [], kw := [] }, isDefine := true, clsOnSet := .unset },
     op := .evolve, cur := [("x", some "v0")], changes := [("x", "t1")] }
 
-/-- **C12_known_cache_misplaced_witness** (K2): the evolved instance cannot be hashed, so the invariants fail;
-    likewise for assoc. -/
+/-- **C12_known_cache_misplaced_witness** (K2): the evolved instance cannot be hashed, so the invariants fail
+    (an `assoc` result can: the copy's cache is reset in the slot, see `cacheMisplaced`). -/
 theorem C12_known_cache_misplaced_witness :
     ∃ c, wf c = true ∧ "K2" ∈ known c ∧ spec c (model c) = false :=
   ⟨k2Witness, by decide, by decide, by decide⟩
 
-theorem C12_known_cache_misplaced_witness_assoc :
-    ∃ c, wf c = true ∧ "K2" ∈ known c ∧ spec c (model c) = false :=
-  ⟨{ k2Witness with op := .assoc }, by decide, by decide, by decide⟩
+example : wf { k2Witness with op := .assoc } = true ∧ known { k2Witness with op := .assoc } = [] ∧
+    spec { k2Witness with op := .assoc } (model { k2Witness with op := .assoc }) = true :=
+  ⟨by decide, by decide, by decide⟩
 
 /-- a slotted class with a converted init field, an `init=False` factory field and a keyword-only field with
     a private name; the second field was reassigned before -/
@@ -233,6 +301,15 @@ example : wf { sample with op := .assoc, changes := [("_z", "t3")] } = true ∧
       [("x", some "conv.x(t1)"), ("y", some "w"), ("_z", some "t3")] ∧
     wf { sample with op := .assoc, changes := [("z", "t3")] } = true ∧
     (model { sample with op := .assoc, changes := [("z", "t3")] }).exc = some .notFound := by
+  refine ⟨by decide, by decide, by decide, by decide⟩
+
+/-- … and those of `C12_evolve_identity` / `C12_assoc_identity` by changes that *equal* the current values: the
+    named fields hold the object passed, the others the original's, a converted field another object. -/
+example : wf { sample with changes := [("z", "t2")] } = true ∧
+    (model { sample with changes := [("z", "t2")] }).ident = [("x", .other), ("_z", .passed)] ∧
+    wf { sample with op := .assoc, changes := [("x", "conv.x(t1)"), ("_z", "t2")] } = true ∧
+    (model { sample with op := .assoc, changes := [("x", "conv.x(t1)"), ("_z", "t2")] }).ident =
+      [("x", .passed), ("y", .orig), ("_z", .passed)] := by
   refine ⟨by decide, by decide, by decide, by decide⟩
 
 end Attrs.C12
